@@ -44,7 +44,8 @@ func (t *Target) AccessDeniedHTTP(r *http.Request) bool {
 	}
 
 	// check xff source if present
-	if xff := r.Header.Get("X-Forwarded-For"); xff != "" {
+	// the chain may be spread over several header lines
+	if xff := strings.Join(r.Header.Values("X-Forwarded-For"), ","); xff != "" {
 		// Trusting XFF headers sent from clients is dangerous and generally
 		// bad practice.  Therefore, we cannot assume which if any of the elements
 		// is the actual client address.  To try and avoid the chance of spoofed
@@ -57,6 +58,11 @@ func (t *Target) AccessDeniedHTTP(r *http.Request) bool {
 			if xip == host {
 				continue
 			}
+			// an element may carry a port or brackets: 1.2.3.4:80, [::1]:80, [::1]
+			if h, _, err := net.SplitHostPort(xip); err == nil {
+				xip = h
+			}
+			xip = strings.TrimSuffix(strings.TrimPrefix(xip, "["), "]")
 			if ip = net.ParseIP(xip); ip == nil {
 				log.Printf("[WARN] failed to parse xff address %s", xip)
 				continue
